@@ -98,12 +98,14 @@ theorem specFrame_inv {t t' : RSpec} {f : Frame} {ev : Option DataEv} (h : SpecI
 
 theorem specReset_inv {t t' : RSpec} {z : Nat} (h : SpecInv t) (hs : specReset t z = some t') :
     SpecInv t' := by
+  have hab : ∀ i, max t.hi z ≤ i → t.known i = none := fun i hi => h.above i (by omega)
+  have hle : t.delivered ≤ max t.hi z := by have := h.le; omega
   unfold specReset at hs
   split at hs
   · split at hs
     · cases hs
-    · cases hs; exact h
-  · cases hs; exact ⟨h.above, h.below, h.prompt, h.le⟩
+    · cases hs; exact ⟨hab, h.below, h.prompt, hle⟩
+  · cases hs; exact ⟨hab, h.below, h.prompt, hle⟩
 
 /-- the reference model's end marker: set exactly when everything up to the
     final size has been delivered -/
@@ -144,7 +146,7 @@ theorem specReset_final_stable {t t' : RSpec} {y z : Nat}
   simp only [] at hs
   split at hs
   · cases hs
-  · cases hs; exact hz
+  · cases hs; rename_i hne; simp only [ne_eq, Decidable.not_not] at hne; subst hne; rfl
 
 /-! ## Frames cut from one source stream -/
 
